@@ -298,7 +298,7 @@ def P2_more_pairing(ctx):
     f = ctx.method('beneficiary::history::BeneficiaryHistory', 'validate')
     rows = set()
     for p in feasible(f.paths()):
-        r = ret_of(p)
+        r = through_new_helper(ctx.facts, ret_of(p))
         d = [a for a in p.events if a.kind == 'atom' and a.d['term'][0] == 'discr' and has_call(a.d['term'][1], 'BeneficiaryHistory::scan_before')]
         if d and d[0].d['outcome'] == 'Ok':
             rows.add(('Ok', r[0] == 'call' and r[1].endswith('HistoryScan::validate') and r[2][1] == ('arg', 3)))
